@@ -21,7 +21,9 @@ from icalendar.prop import vText
 SIGMA = (",", ";", ":", "=", "'", "^", " ", "\\", "%", "2", "C", "a", "é", "n", "’", "\u00a0", "\u2003", "\u2028", "\ufeff", "\U0001F600", "c", "5")
 NAMES = ("X-P", "x-p", "Cn", "ALTREP", "a.b-1")
 PAIRS = (("X-P", "Cn"), ("ALTREP", "a.b-1"), ("x-p", "ALTREP"), ("Cn", "a.b-1"))
-SHAPES = ("s", "s|b", "b|s", "s|b|s", "s|b|c|s", "|s", "s|")
+MANY_Q = "|".join(f"v {i}" for i in range(12)) + "|s|" + "|".join(f"w,{i}" for i in range(12))   # 24 values that need quoting around s
+MANY_P = "|".join(f"u{i}" for i in range(130)) + "|s"                                               # 130 plain values, then s
+SHAPES = ("s", "s|b", "b|s", "s|b|s", "s|b|c|s", "|s", "s|", MANY_Q, MANY_P)
 PATHS = ("alone", "line", "component")
 _UNIQ = [0]
 
